@@ -929,3 +929,16 @@ func BuildQuery(prelude string, hyps []*Term, goal *Term, wantModel bool) (strin
 
 // symbols declared by the prelude (uninterpreted math functions etc.)
 var preludeDeclared = map[string]bool{}
+
+// IntDivMod builds SMT div/mod with constant folding (divisor > 0 literal)
+func IntDivMod(op string, a, b *Term) *Term {
+	if a.rat != nil && b.rat != nil && b.rat.Sign() > 0 && a.rat.IsInt() && b.rat.IsInt() {
+		q, m := new(big.Int), new(big.Int)
+		q.DivMod(a.rat.Num(), b.rat.Num(), m)
+		if op == "div" {
+			return IntLitBig(q)
+		}
+		return IntLitBig(m)
+	}
+	return App(op, SInt, a, b)
+}
